@@ -32,6 +32,9 @@ RULE = ('one case = one edit history (append / set_length from either end / slic
         'prefix and is observed as such) plus 10x the random ones; non-trivial = the history reaches at least 3 different '
         'lengths with at least one non-empty state; distinct by canonical input')
 ASSUMPTIONS = [
+    'the observation schedule is part of a history (input.obs, default: observe after every op): after an unobserved '
+    'op no read-only observer is called on any object and only the outcome is compared; the last op is always '
+    'observed in full; relational oracle clauses apply where the previous state was observed',
     'the expected outcome of every op (success / ValueError / MelodyChordsMismatchError / NotImplementedError) and the '
     'reported resolution, max_shift_steps, program, is_drum, steps_per_second|quarter are derived by the oracle from '
     'the REQUESTED arguments; wire conventions: a drum event starting with -7 is a Python list instead of a frozenset, a '
@@ -380,6 +383,19 @@ def _snap(cls, obj, ch):
     return out
 
 
+def _schedule(inp):
+    """inp['obs'][i] = 1 iff the read-only observers are called after op i (default: after every op).  The last
+    op is always observed."""
+    n = len(inp['ops'])
+    sched = [1] * n
+    for i, b in enumerate(inp.get('obs') or []):
+        if i < n:
+            sched[i] = 1 if b else 0
+    if n:
+        sched[-1] = 1
+    return sched
+
+
 def impl(case):
     inp = case['input']
     cls = inp['cls']
@@ -387,6 +403,7 @@ def impl(case):
     obj = _build(cls, inp['init'])
     trace = []
     retained = []        # [object, snapshot, step it was set aside at, opcode]
+    sched = _schedule(inp)
     for i, op in enumerate(inp['ops']):
         old = obj
         sibs = []
@@ -396,6 +413,11 @@ def impl(case):
         except Exception as e:  # noqa
             name = type(e).__name__
             outcome = _EXC_CODE.get(name, ['EXC', name if not str(e).startswith('slice-returned-') else str(e)])
+        if not sched[i]:
+            # not an observation point of this history: NO read-only observer (len, iteration, indexing,
+            # start_step, end_step, steps, num_steps) is called on any object, only the outcome is recorded
+            trace.append([outcome])
+            continue
         if outcome == 0:
             # the original of a copy / slice stays alive, and so does a second object built from the same list:
             # nothing is applied to them any more, so nothing about them may change
@@ -433,10 +455,11 @@ def model_output(case, m):
     cls = inp['cls']
     out = []
     cfg = _requested_cfg(cls, inp['init'])
-    for op, ob in zip(inp['ops'], m):
+    sched = _schedule(inp)
+    for i, (op, ob) in enumerate(zip(inp['ops'], m)):
         if op[0] == REINIT and ob[0] == 0:
             cfg = _requested_cfg(cls, op[2:5] + op[6:7] if cls == 6 else op[1:])
-        out.append(ob + ([cfg] if cfg is not None else []) + [[]])
+        out.append(ob + ([cfg] if cfg is not None else []) + [[]] if sched[i] else [ob[0]])
     return out
 
 
@@ -746,8 +769,10 @@ def oracle(case, io):
     pad = inp['init'][0] if cls == 1 else None
     rng6 = list(inp['init'][1:3]) if cls == 6 else None      # requested (min_pitch, max_pitch)
     cfg = _requested_cfg(cls, inp['init'])
+    sched = _schedule(inp)
     for i, (op, ob) in enumerate(zip(ops, io)):
-        if ob[-1]:
+        seen = bool(sched[i])
+        if seen and ob[-1]:
             # an object set aside earlier (the original of a deepcopy / slice, or a second object built from the
             # same Python list) changed although no op was applied to it
             at, code, k = ob[-1][0]
@@ -755,7 +780,9 @@ def oracle(case, io):
                     'set_aside_at_step': at, 'set_aside_by_opcode': code, 'changed': _SNAP_FIELDS[k]}
         if not _in_claim(cls, op):
             return None          # the property makes no claim about the rest of this history
-        where = {'cls': CLS[cls], 'step': i, 'opcode': op[0]}
+        where = {'cls': CLS[cls], 'step': i, 'opcode': op[0], 'observed_since': sched[:i + 1]}
+        if all(sched[:i + 1]):
+            del where['observed_since']
         out = ob[0]
         want = _expected_outcome(cls, op)
         if out != want:
@@ -768,32 +795,49 @@ def oracle(case, io):
             return dict(kind='wrong-exception-class', expected=want,
                         exc=out[1] if isinstance(out, list) else out, **where)
         if out != 0:
-            if ob[1:] != prev[1:]:
+            if seen and prev is not None and ob[1:] != prev[1:]:
                 return dict(kind='rejected-op-changed-the-object', **where)
+            if not seen:
+                prev = None
+            continue
+        # requested configuration in force from here on (also when this step is not observed)
+        if cls == 1 and op[0] == REINIT:
+            newpad = op[1]
+        else:
+            newpad = pad
+        if cls in (6, 7) and op[0] == REINIT:
+            cfg = _requested_cfg(cls, op[2:5] + op[6:7] if cls == 6 else op[1:])
+        if not seen:
+            # nothing was read after this op: the state is unknown until the next observation point
+            prev = None
+            pad = newpad
+            if cls == 6 and op[0] == REINIT:
+                rng6 = [op[3], op[4]]
             continue
         bad = _check_exc(ob)
-        if not bad and op[0] == SETLEN and ob[4] == len(ob[1]) and (cls != 5 or len(ob[8]) == len(ob[9])):
-            # name the set_length defect before the invariant it breaks
-            bad = _check_op(cls, op, prev, ob, pad)
-        bad = bad or _check_state(cls, ob) or _check_op(cls, op, prev, ob, pad) or _check_cfg(cls, op, prev, ob, rng6)
+        if prev is not None:
+            if not bad and op[0] == SETLEN and ob[4] == len(ob[1]) and (cls != 5 or len(ob[8]) == len(ob[9])):
+                # name the set_length defect before the invariant it breaks
+                bad = _check_op(cls, op, prev, ob, pad)
+            bad = bad or _check_state(cls, ob) or _check_op(cls, op, prev, ob, pad) or \
+                _check_cfg(cls, op, prev, ob, rng6)
+        else:
+            # first observation after unobserved edits: the state invariants (and the model, by correspondence)
+            bad = bad or _check_state(cls, ob)
         if bad:
             bad.update(where)
             return bad
-        if cls == 1 and op[0] == REINIT:
-            pad = op[1]
+        pad = newpad
         if cls == 6 and op[0] == REINIT:
             rng6 = [op[3], op[4]]
-        if cls in (6, 7):
-            if op[0] == REINIT:
-                cfg = _requested_cfg(cls, op[2:5] + op[6:7] if cls == 6 else op[1:])
-            if ob[-2] != cfg:
-                return dict(kind='constructor-parameter-not-honoured', got=ob[-2], requested=cfg, **where)
+        if cls in (6, 7) and ob[-2] != cfg:
+            return dict(kind='constructor-parameter-not-honoured', got=ob[-2], requested=cfg, **where)
         prev = ob
     return None
 
 
 def nontrivial(case, io):
-    lens = set(ob[4] for ob in io if isinstance(ob, list) and ob and ob[0] == 0 and isinstance(ob[4], int))
+    lens = set(ob[4] for ob in io if isinstance(ob, list) and len(ob) > 4 and ob[0] == 0 and isinstance(ob[4], int))
     return len(lens) >= 3
 
 
@@ -974,6 +1018,43 @@ def _random_history(cls, rng, length):
     return {'op': CLS[cls], 'input': {'cls': cls, 'init': init, 'ops': ops}}
 
 
+def _scheduled_history(cls, rng, length):
+    """A random history whose OBSERVATION SCHEDULE is random too: the read-only observers run only after a random
+    subset of the ops (always after the last), so state memoised by one read and invalidated by later edits is
+    seen stale.  Performances additionally get a `truncate / append back to the same number of events` episode."""
+    case = _random_history(cls, rng, length)
+    ops = case['input']['ops']
+    p = rng.choice([0.0, 0.1, 0.25, 0.5])
+    obs = [int(rng.random() < p) for _ in ops]
+    if cls == 7 and rng.random() < 0.5:
+        j = rng.randint(1, 4)
+        i = rng.randint(0, j - 1)
+        m = case['input']['init'][1]
+        ep = [[APPEND] + rng.choice([[3, rng.randint(1, m + 2)], [1, 60], [2, 60]]) for _ in range(j)]
+        eo = [int(rng.random() < 0.3) for _ in range(j)]
+        ep += [[TRUNCATE, j], [TRUNCATE, i]]
+        eo += [1, 0]
+        ep += [[APPEND, 3, rng.randint(1, 2 * m + 3)] for _ in range(j - i)]
+        eo += [0] * (j - i)
+        tail = rng.choice([[], [[SETLEN, rng.choice([0, 3, 30, 3 * m + 1]), 0]], [[DEEPCOPY]], [[TRUNCATE, 30]]])
+        ep += tail
+        eo += [int(rng.random() < 0.5) for _ in tail]
+        if not tail or rng.random() < 0.5:
+            eo[-1] = 1
+        at = rng.randint(0, len(ops))
+        # keep the episode inside one object: no re-initialisation may change max_shift in between (it does not)
+        ops[at:at] = ep
+        obs[at:at] = eo
+    obs[-1] = 1
+    case['input']['obs'] = obs
+    return case
+
+
+def _end_only(case):
+    case['input']['obs'] = [0] * (len(case['input']['ops']) - 1) + [1]
+    return case
+
+
 def _alphabet(cls):
     """Small op alphabets for the exhaustive sweep, and the fixed first op that makes the object non-empty."""
     common = [[SETLEN, 4, 0], [SETLEN, 1, 0], [SETLEN, 0, 1], [SETLEN, 4, 1],
@@ -1009,6 +1090,7 @@ def _exhaustive(cls, depth):
 
 QUICK_PER_CLASS = 260
 QUICK_LEN = 24
+SCHEDULED_PER_CLASS = 60
 
 
 def cases(rng, tier, n=None):
@@ -1019,20 +1101,33 @@ def cases(rng, tier, n=None):
     for cls in range(1, 8):
         for _ in range(per):
             out.append(_random_history(cls, rng, QUICK_LEN))
+    sper = SCHEDULED_PER_CLASS * (10 if tier == 'thorough' else 1) if n is None else per // 3
+    for cls in range(1, 8):
+        for _ in range(sper * (3 if cls == 7 else 1)):
+            out.append(_scheduled_history(cls, rng, QUICK_LEN))
     rng.shuffle(out)                          # classes and configurations interleaved in one process
     if tier == 'thorough' and n is None:
         for cls in range(1, 8):
             out.extend(_exhaustive(cls, 5))
+        # the same sweep for performances (whose length is computed, not stored) observed only at the end,
+        # and at depth 4 for every class
+        out.extend(_end_only(c) for c in _exhaustive(7, 5))
+        for cls in range(1, 7):
+            out.extend(_end_only(c) for c in _exhaustive(cls, 4))
     elif n is None:
         # a slice of the exhaustive sweep in every quick run: all histories of length 3
         for cls in range(1, 8):
             out.extend(_exhaustive(cls, 3))
+        out.extend(_end_only(c) for c in _exhaustive(7, 3))
     return out
 
 
 def corpus():
     def c(cls, init, ops):
         return {'op': CLS[cls], 'input': {'cls': cls, 'init': init, 'ops': ops}}
+
+    def cs(cls, init, ops, obs):
+        return {'op': CLS[cls], 'input': {'cls': cls, 'init': init, 'ops': ops, 'obs': obs}}
     R4 = [REINIT, 0, [1, [1, 2, 3, 4]], 4, 16, 4]
     out = [
         # F3: set_length(0, from_left=True) on a non-empty sequence
@@ -1079,6 +1174,16 @@ def corpus():
         c(6, [1, 60, 61, 12], [[APPEND, [59, 60, 61, 62], 1], [APPEND, [59, 62], 0],
                                [REINIT, [[0, 59], [60], []], 7, 0, 59, 1, 24], [APPEND, [59, 60], 1],
                                [REINIT, [], 3, 73, 127, 1, 1], [APPEND, [72, 73, 127], 1], [SETLEN, 3, 0]]),
+        # read, then edit back to the same number of events without a read in between (seeded C17-8)
+        cs(7, [0, 100, 0], [[APPEND, 3, 10], [SETLEN, 10, 0], [TRUNCATE, 0], [APPEND, 3, 30]], [0, 0, 0, 1]),
+        cs(7, [0, 100, 0], [[APPEND, 3, 10], [SETLEN, 10, 0], [TRUNCATE, 0], [APPEND, 3, 30], [SETLEN, 30, 0]],
+           [0, 0, 0, 0, 1]),
+        cs(7, [5, 3, 1], [[APPEND, 1, 60], [APPEND, 3, 2], [TRUNCATE, 1], [APPEND, 3, 7], [SETLEN, 7, 0], [TRUNCATE, 1],
+                          [APPEND, 2, 60], [APPEND, 3, 1]], [0, 1, 0, 0, 0, 0, 0, 1]),
+        cs(6, [2, 60, 72], [[APPEND, [60], 0], [SETLEN, 3, 0], [SETLEN, 0, 0], [APPEND, [61], 0], [APPEND, [62], 0],
+                            [APPEND, [63], 0]], [0, 1, 0, 0, 0, 1]),
+        cs(2, [], [[APPEND, 60], [SETLEN, 3, 0], [SETLEN, 0, 1], [APPEND, 62], [APPEND, 64], [APPEND, -1]],
+           [0, 1, 0, 0, 0, 1]),
         # melody padding ends a sustained note / does not add a second NOTE_OFF
         c(2, [], [[APPEND, 60], [SETLEN, 3, 0], [SETLEN, 5, 0], [APPEND, 62], [APPEND, -1], [SETLEN, 9, 0],
                   [SETLEN, 12, 1], [INCRES, 2], [SLICE, [2], [-3]], [DEEPCOPY]]),
@@ -1105,10 +1210,17 @@ def corpus():
 def shrink(case):
     inp = case['input']
     ops = inp['ops']
+    obs = _schedule(inp)
+
+    def mk(o, b):
+        d = {'cls': inp['cls'], 'init': inp['init'], 'ops': o}
+        if 'obs' in inp:
+            d['obs'] = b
+        return {'op': case['op'], 'input': d}
     for k in range(len(ops) - 1, -1, -1):
-        yield {'op': case['op'], 'input': {'cls': inp['cls'], 'init': inp['init'], 'ops': ops[:k] + ops[k + 1:]}}
+        yield mk(ops[:k] + ops[k + 1:], obs[:k] + obs[k + 1:])
     if len(ops) > 1:
-        yield {'op': case['op'], 'input': {'cls': inp['cls'], 'init': inp['init'], 'ops': ops[:len(ops) // 2]}}
+        yield mk(ops[:len(ops) // 2], obs[:len(ops) // 2])
 
 
 META = {
